@@ -838,7 +838,9 @@ def _run(ctx):
             n_arg = lambda: n_keep
             a_arg = lambda: a_keep
             b_arg = lambda: b_keep
-        inputs = [] if d == 1 else [n_keep, a_keep, b_keep]
+        gm_arrs = [np.array([float(rng.randint(-5, 5)) for _ in range(rng.randint(1, 3))]) for _ in range(rng.randint(2, 3))]
+        inputs = list(gm_arrs) + ([] if d == 1 else [n_keep, a_keep, b_keep])
+        input_bits = [t_.tobytes() for t_ in inputs]
         vol = Fraction(1)
         for k in range(d):
             vol *= B[k] - A[k]
@@ -851,11 +853,23 @@ def _run(ctx):
                 if abs(F(out) - exact) > Fraction(1, 10 ** 10) * (abs(exact) + abs(vol)):
                     return "%s(1 + x0) = %r, exact integral %r" % (kind, float(out), float(exact))
                 return None
+            if kind == "gridmake":
+                want = [list(reversed(t_)) for t_ in itertools.product(*reversed([v.tolist() for v in gm_arrs]))]
+                return None if np.asarray(out[0]).tolist() == want else "gridmake is not the product grid, first index fastest"
+            if kind == "ckron":
+                want = [math.prod(t_) for t_ in itertools.product(*[v.tolist() for v in gm_arrs])]
+                return None if np.asarray(out[0]).tolist() == want else "ckron is not the Kronecker product"
             x, w = out
             x = np.asarray(x, dtype=float)
             w = np.atleast_1d(np.asarray(w, dtype=float))
             X = x.reshape(len(w), -1)
             tot = sum(F(t) for t in w)
+            if kind.startswith("equi"):
+                if any(abs(F(t) - vol / len(w)) > 4 * EPS * vol / len(w) for t in w):
+                    return "%s: the weights are not volume/n" % kind
+                if not all(A[j] <= F(X[i, j]) <= B[j] for i in range(len(w)) for j in range(d)):
+                    return "%s: a node lies outside the box" % kind
+                return None
             if kind in ("lege", "trap", "simp", "cheb"):
                 mass, rule = vol, kind
             else:
@@ -900,6 +914,11 @@ def _run(ctx):
             "quadrect-lege": lambda: Q.quadrect(g, n_arg(), a_arg(), b_arg(), "lege"),
             "quadrect-trap": lambda: Q.quadrect(g, n_arg(), a_arg(), b_arg(), "trap"),
             "quadrect-default": lambda: Q.quadrect(g, n_arg(), a_arg(), b_arg()),
+            "equi-N": lambda: Q.qnwequi(n0 + 3, a_arg(), b_arg(), "N"),
+            "equi-W": lambda: Q.qnwequi(n0 + 3, a_arg(), b_arg(), "W"),
+            "equi-H": lambda: Q.qnwequi(n0 + 3, a_arg(), b_arg(), "H"),
+            "gridmake": lambda: (gridmake(*gm_arrs),),
+            "ckron": lambda: (ckron(*gm_arrs),),
         }
         if d == 1:
             calls.update({
@@ -937,6 +956,16 @@ def _run(ctx):
             if why:
                 ctx.spec_fail("history", "after the calls %s: %s" % (history[:-1], why), replay(step))
                 return
+            # inputs untouched; everything returned earlier still holds the bits it had when it was returned
+            for t_, b0 in zip(inputs, input_bits):
+                if t_.tobytes() != b0:
+                    ctx.spec_fail("history", "%s modified one of its input arrays (history %s)" % (kind, history), replay(step))
+                    return
+            for (st0, k0, arr0, pristine, mutated) in kept:
+                if not mutated and arr0.tobytes() != pristine:
+                    ctx.spec_fail("history", "the array returned by %s at step %d was modified by the later call %s (history %s)"
+                                  % (k0, st0, kind, history), replay(step, {"modified_result_of_step": st0}))
+                    return
             if kind.startswith("quadrect"):
                 continue
             arrs = [np.asarray(t) for t in out]
@@ -986,6 +1015,266 @@ def _run(ctx):
 
     for hist_id in range(ctx.n(24, 200)):
         run_history(hist_id)
+
+    # ---- 4d. ARGUMENT FORMS: the same call with its arguments in other legal forms must return the same rule,
+    # must leave its inputs bitwise unchanged and must not return memory shared with them.  Forms that reach the
+    # jitted kernels with a new scalar type cost a compilation each, so only a few of those are drawn per run.
+    def unlisted(key, what, rp):
+        """a genuine but unlisted observation on the clean code: counted, not a violation, until it is listed"""
+        if key in ctx.known:
+            ctx.spec_fail(key, what, rp)
+        else:
+            ctx.count("unlisted-finding:" + key)
+            ctx.extra.setdefault("unlisted_findings", {}).setdefault(key, {"what": what, "replay": rp})
+
+    def as_strided(v):
+        big = np.zeros(2 * len(v), dtype=v.dtype)
+        big[::2] = v
+        return big[::2]
+
+    def as_reversed(v):
+        return v[::-1].copy()[::-1]
+
+    plain_vec = [("list", lambda v: v.tolist()), ("tuple", lambda v: tuple(v.tolist())), ("strided-view", as_strided),
+                 ("reversed-view", as_reversed), ("ndarray", lambda v: v.copy())]
+    exotic_int = [np.int8, np.int16, np.int32, np.uint8, np.uint16, np.uint32, np.uint64, np.intp]
+    form_fns = {"lege": Q.qnwlege, "trap": Q.qnwtrap, "simp": Q.qnwsimp, "cheb": Q.qnwcheb, "unif": Q.qnwunif,
+                "beta": Q.qnwbeta, "gamma": Q.qnwgamma}
+
+    def snapshot(objs):
+        return [(o, o.tobytes()) for o in objs if isinstance(o, np.ndarray)]
+
+    def check_call(tag, label, thunk, inputs, ref, rp, exotic):
+        """run one form; returns the result or None"""
+        snap = snapshot(inputs)
+        try:
+            out = thunk()
+        except Exception as e:
+            if exotic:
+                ctx.count("argforms:rejected-loudly:%s:%s" % (label, type(e).__name__))
+                return None
+            ctx.spec_fail("argforms", "%s with %s raised %s: %s" % (tag, label, type(e).__name__, str(e)[:200]), rp)
+            return None
+        ctx.count("argforms:accepted:" + label)
+        for o, b0 in snap:
+            if o.tobytes() != b0:
+                if tag == "gamma" and o.ndim == 0:
+                    # genuine on the clean tree (numba `a -= 1` on a 0-d array argument): counted until it is listed
+                    unlisted("qnwgamma-0d-shape-decremented", "qnwgamma decrements a 0-d array passed as the shape a in place "
+                             "(a repeated call with the same array then uses shape a-1)", rp)
+                else:
+                    ctx.spec_fail("argforms-input-modified", "%s with %s modified its input array" % (tag, label), rp)
+        outs = [np.asarray(t_) for t_ in (out if isinstance(out, tuple) else (out,))]
+        for arr in outs:
+            for o, _ in snap:
+                if arr.ndim and np.shares_memory(arr, o):
+                    ctx.spec_fail("argforms-alias", "%s with %s returns memory shared with an input" % (tag, label), rp)
+        if ref is not None:
+            refs = [np.asarray(t_) for t_ in (ref if isinstance(ref, tuple) else (ref,))]
+            for arr, r0 in zip(outs, refs):
+                # (float32 inputs are factorised / evaluated in single precision by NumPy / LAPACK: 1e-5)
+                tol_f = 1e-5 if "float32" in label else 1e-12
+                same = arr.shape == r0.shape and (np.array_equal(arr, r0) if not exotic else
+                                                  np.allclose(arr, r0, rtol=tol_f, atol=tol_f))
+                if not same:
+                    ctx.spec_fail("argforms", "%s with %s differs from the call with plain int64/float64 arguments "
+                                              "(shape %s vs %s)" % (tag, label, arr.shape, r0.shape), rp)
+                    break
+        return out
+
+    n_exotic = ctx.n(3, 24)
+    for rep in range(ctx.n(14, 70)):
+        kind = sorted(form_fns)[rep % 7]
+        fn = form_fns[kind]
+        d = 1 + rep % 3
+        lo = 2 if kind in ("trap", "simp") else 1
+        nn = np.array([rng.randint(lo, 5) for _ in range(d)])
+        if kind in ("beta", "gamma"):
+            aa = np.array([float(dy(rng, 0.5, 6, 4)) for _ in range(d)])
+            bb = np.array([float(dy(rng, 0.5, 6, 4)) for _ in range(d)])
+        else:
+            # small integers / quarter-integers: exactly representable in float32 and, for the int forms, integral
+            aa = np.array([float(rng.randint(-4, 2)) for _ in range(d)])
+            bb = aa + np.array([float(rng.randint(1, 4)) for _ in range(d)])
+        if kind == "beta" and any(nn == 3):
+            nn[nn == 3] = 4
+        rp0 = {"op": "argforms:" + kind, "n": nn.tolist(), "a": aa.tolist(), "b": bb.tolist()}
+        if d == 1:
+            ref = fn(int(nn[0]), float(aa[0]), float(bb[0]))
+            # scalar forms that keep the scalar types: NumPy int64 / float64 scalars, length-1 containers for n
+            for label, nf, af, bf in [("np.int64/np.float64 scalars", np.int64(nn[0]), np.float64(aa[0]), np.float64(bb[0])),
+                                      ("n as length-1 list", [int(nn[0])], float(aa[0]), float(bb[0])),
+                                      ("n as length-1 tuple", (int(nn[0]),), float(aa[0]), float(bb[0])),
+                                      ("n as length-1 ndarray", np.array([int(nn[0])]), float(aa[0]), float(bb[0])),
+                                      ("keywords a=, b=", int(nn[0]), None, None)]:
+                if af is None:
+                    check_call(kind, label, lambda: fn(int(nn[0]), a=float(aa[0]), b=float(bb[0])), [], ref, dict(rp0, form=label), False)
+                else:
+                    check_call(kind, label, lambda: fn(nf, af, bf), [nf, af, bf], ref, dict(rp0, form=label), False)
+        else:
+            ref = fn(nn.copy(), aa.copy(), bb.copy())
+            for label, tf in plain_vec:
+                which = rng.randrange(4)
+                nf = tf(nn) if which in (0, 3) else nn.copy()
+                af = tf(aa) if which in (1, 3) else aa.copy()
+                bf = tf(bb) if which in (2, 3) else bb.copy()
+                check_call(kind, "%s (%s)" % (label, ["n", "a", "b", "n,a,b"][which]), lambda: fn(nf, af, bf), [nf, af, bf], ref,
+                           dict(rp0, form=label, applied_to=["n", "a", "b", "all"][which]), False)
+        # forms that change the scalar type seen by the kernels (a compilation each): a few per run
+        if n_exotic > 0:
+            n_exotic -= 1
+            choice = rng.randrange(5)
+            integral_ab = kind not in ("beta", "gamma")
+            if choice == 0:
+                ty = rng.choice(exotic_int)
+                label = "n as " + ty.__name__
+                nf, af, bf = (ty(nn[0]), float(aa[0]), float(bb[0])) if d == 1 else (nn.astype(ty), aa.copy(), bb.copy())
+            elif choice == 1:
+                label = "a, b as float32"
+                nf = int(nn[0]) if d == 1 else nn.copy()
+                af, bf = (np.float32(aa[0]), np.float32(bb[0])) if d == 1 else (aa.astype(np.float32), bb.astype(np.float32))
+            elif choice == 2 and integral_ab:
+                label = "a, b as Python int / int64 array"
+                nf = int(nn[0]) if d == 1 else nn.copy()
+                af, bf = (int(aa[0]), int(bb[0])) if d == 1 else (aa.astype(np.int64), bb.astype(np.int64))
+            elif choice == 3:
+                label = "n, a, b as 0-d arrays"
+                nf, af, bf = np.array(int(nn[0])), np.array(float(aa[0])), np.array(float(bb[0]))
+                if d > 1:
+                    nf, af, bf = nn.copy(), np.array(float(aa[0])), np.array(float(bb[0]))
+                    aa_, bb_ = np.full(d, aa[0]), np.full(d, bb[0])
+                    ref = fn(nn.copy(), aa_, bb_)
+            else:
+                label = "n as float (documented: array_like(float))"
+                nf = float(nn[0]) if d == 1 else nn.astype(float)
+                af, bf = (float(aa[0]), float(bb[0])) if d == 1 else (aa.copy(), bb.copy())
+            out = check_call(kind, label, lambda: fn(nf, af, bf), [nf, af, bf], ref, dict(rp0, form=label), True)
+            if out is None and label.startswith("n as float"):
+                unlisted("float-n-rejected", "qnw%s: a float n (documented as array_like(float)) raises a numba TypingError "
+                         "instead of being accepted or rejected with a clear message" % kind, dict(rp0, form=label))
+            if out is None and label == "n as uint64" and kind == "simp":
+                unlisted("qnwsimp-uint64-n", "qnwsimp: an unsigned 64-bit n raises a numba TypingError (n % 2, n += 1 on uint64)",
+                         dict(rp0, form=label))
+
+    # dedicated probe: 0-d array parameters of qnwgamma (history of two identical calls)
+    a0d, b0d = np.array(3.0), np.array(5.0)
+    g1 = check_call("gamma", "n, a, b as 0-d arrays", lambda: Q.qnwgamma(4, a0d, b0d), [a0d, b0d], Q.qnwgamma(4, 3.0, 5.0),
+                    {"op": "qnwgamma", "n": 4, "a": "np.array(3.0)", "b": "np.array(5.0)"}, True)
+    if g1 is not None and float(a0d) == 3.0:
+        g2 = Q.qnwgamma(4, a0d, b0d)
+        if not np.array_equal(g1[0], g2[0]):
+            ctx.spec_fail("argforms", "qnwgamma(4, 0-d a, 0-d b) twice gives different nodes", {"op": "qnwgamma", "n": 4})
+    # a vector n of a narrow integer dtype whose product does not fit that dtype (qnwequi uses prod(n) points)
+    for ty, vec in [(np.int8, [20, 20]), (np.uint8, [16, 16]), (np.int16, [200, 200])][:ctx.n(2, 3)]:
+        nvec = np.array(vec, dtype=ty)
+        av, bv = np.array([0.0, 1.0]), np.array([2.0, 4.0])
+        ref = Q.qnwequi(np.array(vec, dtype=np.int64), av, bv)
+        check_call("qnwequi", "vector n as %s with prod(n) beyond the dtype" % ty.__name__, lambda: Q.qnwequi(nvec, av, bv), [nvec, av, bv],
+                   ref, {"op": "qnwequi", "n": vec, "dtype": ty.__name__, "a": av.tolist(), "b": bv.tolist()}, False)
+
+    # qnwnorm / qnwlogn forms of n, mu, sig2 (no new kernel types: _qnwnorm1 only sees n)
+    for rep in range(ctx.n(6, 30)):
+        d = 2 + rep % 2
+        nn = np.array([rng.randint(2, 4) for _ in range(d)])
+        muv = np.array([float(rng.randint(-3, 3)) for _ in range(d)])
+        Ai = [[rng.randint(-1, 1) for _ in range(d)] for _ in range(d)]
+        Sv = np.array([[float(sum(Ai[i][k] * Ai[j][k] for k in range(d)) + (2 if i == j else 0)) for j in range(d)] for i in range(d)])
+        sq = bool(rep % 2)
+        ref = Q.qnwnorm(nn.copy(), muv.copy(), Sv.copy(), usesqrtm=sq)
+        refl = Q.qnwlogn(nn.copy(), muv.copy(), Sv.copy())
+        rp0 = {"op": "argforms:qnwnorm", "n": nn.tolist(), "mu": muv.tolist(), "sig2": Sv.tolist(), "usesqrtm": sq}
+        sig_forms = [("nested list", Sv.tolist()), ("nested tuple", tuple(map(tuple, Sv.tolist()))), ("F order", np.asfortranarray(Sv)),
+                     ("transposed view", Sv.T), ("flat list", Sv.ravel().tolist()), ("int64 matrix", Sv.astype(np.int64)),
+                     ("float32 matrix", Sv.astype(np.float32)), ("strided view", np.kron(Sv, np.ones((2, 2)))[::2, ::2])]
+        mu_forms = [("list", muv.tolist()), ("tuple", tuple(muv.tolist())), ("int64", muv.astype(np.int64)), ("float32", muv.astype(np.float32)),
+                    ("strided-view", as_strided(muv)), ("reversed-view", as_reversed(muv))]
+        n_forms = [(lab, tf(nn)) for lab, tf in plain_vec] + [("n as " + ty.__name__, nn.astype(ty)) for ty in rng.sample(exotic_int, 2)]
+        picks = [("sig2 " + l, nn.copy(), muv.copy(), f_) for l, f_ in rng.sample(sig_forms, 3)] + \
+                [("mu " + l, nn.copy(), f_, Sv.copy()) for l, f_ in rng.sample(mu_forms, 2)] + \
+                [("n " + l, f_, muv.copy(), Sv.copy()) for l, f_ in rng.sample(n_forms, 2)]
+        for label, nf, mf, sf in picks:
+            ex = "float32" in label or "int64" in label or label.startswith("n n as")
+            check_call("qnwnorm", label, lambda: Q.qnwnorm(nf, mf, sf, usesqrtm=sq), [nf, mf, sf], ref, dict(rp0, form=label), ex)
+            check_call("qnwlogn", label, lambda: Q.qnwlogn(nf, mf, sf), [nf, mf, sf], refl, dict(rp0, op="argforms:qnwlogn", form=label), ex)
+
+    # qnwequi: n / a / b forms, kind in either case, random_state forms, a caller-supplied equidist_pp
+    for rep in range(ctx.n(6, 30)):
+        d = 1 + rep % 3
+        nv = rng.randint(1, 25)
+        aa = np.array([float(rng.randint(-4, 2)) for _ in range(d)])
+        bb = aa + np.array([float(rng.randint(1, 4)) for _ in range(d)])
+        kind = "NWH"[rep % 3]
+        ref = Q.qnwequi(nv, aa.copy(), bb.copy(), kind)
+        rp0 = {"op": "argforms:qnwequi", "n": nv, "a": aa.tolist(), "b": bb.tolist(), "kind": kind}
+        for label, tf in rng.sample(plain_vec, 3):
+            af, bf = tf(aa), tf(bb)
+            check_call("qnwequi", "a, b as " + label, lambda: Q.qnwequi(nv, af, bf, kind), [af, bf], ref, dict(rp0, form=label), False)
+        check_call("qnwequi", "lower-case kind", lambda: Q.qnwequi(nv, aa, bb, kind.lower()), [aa, bb], ref, dict(rp0, form="lower-case kind"), False)
+        ty = rng.choice(exotic_int)
+        check_call("qnwequi", "n as " + ty.__name__, lambda: Q.qnwequi(ty(nv), aa, bb, kind), [aa, bb], ref, dict(rp0, form=ty.__name__), False)
+        check_call("qnwequi", "n as length-1 list", lambda: Q.qnwequi([nv], aa, bb, kind), [aa, bb], ref, dict(rp0, form="[n]"), False)
+        if kind in "WH":
+            import sympy as sym
+            pp = np.sqrt(np.array(list(sym.primerange(0, 60)), dtype=float))
+            check_call("qnwequi", "explicit equidist_pp", lambda: Q.qnwequi(nv, aa, bb, kind, equidist_pp=pp), [aa, bb, pp], ref,
+                       dict(rp0, form="equidist_pp given"), False)
+        seed = rng.randrange(2 ** 31)
+        r_ref = Q.qnwequi(nv, aa, bb, "R", random_state=seed)
+        check_call("qnwequi", "random_state=RandomState(seed)", lambda: Q.qnwequi(nv, aa, bb, "r", random_state=np.random.RandomState(seed)),
+                   [aa, bb], r_ref, dict(rp0, kind="R", seed=seed), False)
+        g_out = check_call("qnwequi", "random_state=Generator", lambda: Q.qnwequi(nv, aa, bb, "R", random_state=np.random.default_rng(seed)),
+                           [aa, bb], None, dict(rp0, kind="R", seed=seed), False)
+        if g_out is not None:
+            Xg = np.asarray(g_out[0]).reshape(nv, d)
+            if not all(aa[j] <= Xg[i, j] <= bb[j] for i in range(nv) for j in range(d)) or not np.array_equal(g_out[1], r_ref[1]):
+                ctx.spec_fail("argforms", "qnwequi(kind R, Generator): node outside the box or weights differ", dict(rp0, kind="R", seed=seed))
+        out = check_call("qnwequi", "n as float", lambda: Q.qnwequi(float(nv), aa, bb, kind), [aa, bb], ref, dict(rp0, form="float n"), True)
+        if out is None:
+            unlisted("float-n-rejected", "a float n (documented as array_like(float)) is rejected", dict(rp0, form="float n"))
+
+    # quadrect: extra positional / keyword arguments reach f; kind in either case
+    for rep in range(ctx.n(4, 16)):
+        nq = rng.randint(2, 6)
+        a0, b0 = float(rng.randint(-3, 0)), float(rng.randint(1, 4))
+        kind = ["lege", "trap", "simp", "cheb"][rep % 4]
+        h = lambda xv, c=0.0, k=1.0: c + k * np.asarray(xv, dtype=float)
+        ref = Q.quadrect(lambda xv: 1.5 + 2.0 * np.asarray(xv, dtype=float), nq, a0, b0, kind)
+        rp0 = {"op": "argforms:quadrect", "n": nq, "a": a0, "b": b0, "kind": kind}
+        check_call("quadrect", "extra positional args for f", lambda: Q.quadrect(h, nq, a0, b0, kind, None, 1.5, 2.0), [], ref, rp0, False)
+        check_call("quadrect", "extra keyword args for f", lambda: Q.quadrect(h, nq, a0, b0, kind, c=1.5, k=2.0), [], ref, rp0, False)
+        check_call("quadrect", "upper-case kind", lambda: Q.quadrect(h, nq, a0, b0, kind.upper(), c=1.5, k=2.0), [], ref, rp0, False)
+        exact = (F(b0) - F(a0)) * Fraction(3, 2) + (F(b0) ** 2 - F(a0) ** 2)
+        if nq >= 2 and abs(F(ref) - exact) > Fraction(1, 10 ** 10) * (abs(exact) + 10):
+            ctx.spec_fail("argforms", "quadrect(1.5 + 2x, kind %s) = %r, exact %r" % (kind, float(ref), float(exact)), rp0)
+
+    # gridmake / ckron: dtypes and views of the arrays, inputs untouched, output owns its memory
+    for rep in range(ctx.n(6, 30)):
+        d = rng.randint(2, 4)
+        arrs = [np.array([float(rng.randint(-9, 9)) for _ in range(rng.randint(1, 4))]) for _ in range(d)]
+        refg, refk = gridmake(*[v.copy() for v in arrs]), ckron(*[v.copy() for v in arrs])
+        forms = []
+        for v in arrs:
+            c = rng.randrange(5)
+            forms.append([v.astype(np.int64), v.astype(np.float32), as_strided(v), as_reversed(v), v.copy()][c])
+        rp0 = {"op": "argforms:gridmake/ckron", "arrays": [v.tolist() for v in arrs], "dtypes": [str(v.dtype) for v in forms]}
+        check_call("gridmake", "dtype / view mix", lambda: gridmake(*forms), forms, refg, rp0, True)
+        check_call("ckron", "dtype / view mix", lambda: ckron(*forms), forms, refk, rp0, True)
+    x1 = np.arange(3.0)
+    if np.shares_memory(ckron(x1), x1):
+        ctx.count("argforms:ckron-of-one-array-is-that-array (reduce; not reachable from the qnw* routines)")
+
+    # boundary values: an explicit zero tolerance for qnwgamma either converges to a rule that passes the
+    # moment oracle or fails loudly
+    for rep in range(ctx.n(2, 8)):
+        n = rng.randint(1, 8)
+        pa_, ps_ = shape_par(rng), dy(rng, 0.125, 8, 8)
+        rp0 = {"op": "qnwgamma", "n": n, "a": float(pa_), "b": float(ps_), "tol": 0.0}
+        try:
+            x, w = Q.qnwgamma(n, float(pa_), float(ps_), 0.0)
+            spec_moments("gamma", "qnwgamma-tol0", x, w, mom_gamma(pa_, ps_), 2 * n - 1, rp0, lo=0, strict=True)
+            ctx.count("boundary:qnwgamma-tol=0:converged")
+        except ValueError:
+            ctx.count("boundary:qnwgamma-tol=0:ValueError")
 
     # ---- 5. qnwequi, quadrect ---------------------------------------------------------------------
     class Rs(np.random.RandomState):
